@@ -7,6 +7,7 @@ import (
 	"net/url"
 	"os"
 	"path/filepath"
+	"regexp"
 	"strings"
 	"time"
 
@@ -27,6 +28,7 @@ var c19Docs = []struct{ name, text string }{
 	{"bad", "a: [\n"},
 	{"seq-of-maps", "- {a: v1, b: 42}\n- {a: w2, b: {n: deep9}}\n"},
 	{"attribute-key-with-a-map", "r:\n  +@id: {deep8: leaf9}\n  c: t7\n"}, // what the XML encoder takes for an attribute holds a map
+	{"holds-infinity", "x: .inf\nb: lf7\n"},                               // a float that JSON cannot hold beside a scalar that every format can
 	{"seq-mixed", "- {a: v1, b: 42}\n- lone8\n- [k5, {z: q6}]\n"},         // rows of different kinds after a first row that is a map
 }
 
@@ -34,7 +36,9 @@ var c19Exprs = []string{".", ".a", ".missing", "select(.a)", "false", "null", `s
 
 var c19Formats = []string{"yaml", "json", "props", "csv", "tsv", "xml", "base64", "uri", "toml", "shell", "lua"}
 
-var c19FlagSets = [][]string{nil, {"-e"}, {"-e", "-N"}, {"-r"}, {"-0"}, {"-e", "-r"}, {"-N"}}
+var c19FlagSets = [][]string{nil, {"-e"}, {"-e", "-N"}, {"-r"}, {"-0"}, {"-e", "-r"}, {"-N"}, {"-C"}}
+
+var c19Ansi = regexp.MustCompile("\x1b\\[[0-9;]*m")
 
 type c19Case struct {
 	Section string   `json:"section"`
@@ -159,7 +163,7 @@ func c19Check(work string, cs c19Case) (kind, detail, outcome string) {
 		}
 		if exit == 0 {
 			// nothing that was produced may be silently dropped or emptied
-			text := out
+			text := c19Ansi.ReplaceAllString(out, "") // -C: colour escapes are not content
 			enc := func(leaf string) string { return leaf }
 			switch cs.Format {
 			case "base64":
@@ -312,6 +316,10 @@ func c19Run(c *fw.Ctx) error {
 	}
 	for a := range c19Docs {
 		for b := range c19Docs {
+			// quick: the document that holds an infinity is paired with itself and with the first three documents only
+			if inf := len(c19Docs) - 2; !c.Thorough() && (a == inf || b == inf) && a != b && a > 2 && b > 2 {
+				continue
+			}
 			hist = append(hist, [][]int{{a, b}}, [][]int{{a}, {b}})
 		}
 	}
@@ -324,7 +332,7 @@ func c19Run(c *fw.Ctx) error {
 			}
 		}
 	}
-	c.Res.Bound = fmt.Sprintf("%d input histories x %d expressions x %d output formats x %d flag sets (full product), -n with undecodable stdin, automatic format choice for every extension and every pair of extensions, and with stdin as the first input; -i against the same command without it (8 documents x 8 expressions x {-, -e})", len(hist), len(c19Exprs), len(c19Formats), len(c19FlagSets))
+	c.Res.Bound = fmt.Sprintf("%d input histories x %d expressions x %d output formats x %d flag sets (full product; -C with the two encoders that have colours), -n with undecodable stdin, automatic format choice for every extension and every pair of extensions, and with stdin as the first input; -i against the same command without it (8 documents x 8 expressions x {-, -e})", len(hist), len(c19Exprs), len(c19Formats), len(c19FlagSets))
 	var idx int64
 	run := func(cs c19Case, order int64) {
 		idx++
@@ -354,6 +362,9 @@ func c19Run(c *fw.Ctx) error {
 		for _, e := range c19Exprs {
 			for _, f := range c19Formats {
 				for _, fl := range c19FlagSets {
+					if len(fl) == 1 && fl[0] == "-C" && f != "yaml" && f != "json" {
+						continue // the other encoders have no colours
+					}
 					nd := 0
 					for _, x := range h {
 						nd += len(x)
